@@ -10,7 +10,7 @@ WT="/tmp/mc$$-repo"
 cleanup() { git -C /repo worktree remove --force "$WT" >/dev/null 2>&1; rm -rf "$WT"; }
 trap cleanup EXIT
 git -C /repo worktree add --detach "$WT" HEAD >/dev/null 2>&1 || { echo "worktree failed"; exit 2; }
-if git -C "$WT" apply "$D/patch.diff" 2>/dev/null; then echo "APPLY ok"; else echo "APPLY fail"; exit 3; fi
+if git -C "$WT" apply "$D/patch.diff" 2>/dev/null || git -C "$WT" apply --3way "$D/patch.diff" 2>/dev/null; then echo "APPLY ok"; else echo "APPLY fail"; exit 3; fi
 cp "$D"/demo/*.go "$WT/$MOD/" 2>/dev/null
 tests=$(grep -hoE '^func (Test[A-Za-z0-9_]+)' "$D"/demo/*.go | awk '{print $2}' | grep -v '^TestMain$' | paste -sd'|')
 rundemo() { ( cd "$WT/$MOD" && go test ${DEMO_FLAGS:-} -count=1 -vet=off -timeout 5m -run "^($tests)\$" . > "$1" 2>&1 ); }
@@ -31,7 +31,7 @@ if [ "${ALSO_ROOT:-0}" = 1 ] && [ "$MOD" != . ]; then
   rb=$(cat /tmp/mc$$.root)
   if [ -n "$rb" ]; then re=$(echo "$rb" | tr ' ' '|'); ( cd "$WT" && go test -count=2 -vet=off -timeout 5m -run "^($re)\$" . >/dev/null 2>&1 ) && echo "ROOT-SUITE pass (after rerun alone of: $rb)" || echo "ROOT-SUITE fail: $rb"; else echo "ROOT-SUITE pass"; fi
 fi
-git -C "$WT" checkout -q -- . ; cp "$D"/demo/*.go "$WT/$MOD/"
+git -C "$WT" reset -q --hard HEAD ; cp "$D"/demo/*.go "$WT/$MOD/"
 rundemo /tmp/mc$$.without; wo=$?
 [ $wo -eq 0 ] && echo "DEMO-WITHOUT pass (as wanted)" || { echo "DEMO-WITHOUT fail (NOT wanted)"; tail -5 /tmp/mc$$.without; }
 rm -f /tmp/mc$$.*
